@@ -3,7 +3,7 @@ from .. import scriptprop
 
 ID = "C16"
 RULE = ("interleavings of enq/deq/qpeek/qlen and push/pop/speek/slen from the zero value with drain-to-empty and refill phases; "
-        "plus every interleaving of length <= 7 over {enq,deq,qpeek} and {push,pop,speek} (exhaustive); non-trivial = at least 3 insertions and 3 removals")
+        "deep phases (65..1000 elements pushed, drained to empty with peeks, reused) for either structure; plus every interleaving of length <= 7 over {enq,deq,qpeek} and {push,pop,speek} (exhaustive); non-trivial = at least 3 insertions and 3 removals")
 ASSUMPTIONS = []
 
 
@@ -23,6 +23,18 @@ def history(rng, nops):
     return sc
 
 
+def deep(rng, n):
+    """grow one structure to n elements (beyond any small-capacity threshold), drain it to empty, use it again"""
+    q = rng.random() < 0.4
+    push, pop, peek, ln = ("enq %d", "deq", "qpeek", "qlen") if q else ("push %d", "pop", "speek", "slen")
+    sc = [push % i for i in range(n)] + [ln]
+    for i in range(n + 1):
+        sc.append(pop)
+        if i % 17 == 0 or n - i < 4: sc += [peek, ln]
+    sc += [push % 7, peek, pop, pop, ln]
+    return sc
+
+
 def exhaustive(maxlen, ops):
     out = []
     def rec(prefix, k):
@@ -37,6 +49,7 @@ def exhaustive(maxlen, ops):
 def explore(core, rng, tier, seed, search=False):
     n, nops = (500, 60) if tier == "quick" else (10000, 200)
     scripts = [history(rng, nops) for _ in range(n)]
+    scripts += [deep(rng, rng.choice([65, 100, 129, 300, 1000] if tier == "quick" else [65, 129, 257, 1025, 5000])) for _ in range(6 if tier == "quick" else 40)]
     depth = 6 if tier == "quick" else 9
     scripts += exhaustive(depth, ["enq %d", "deq", "qpeek", "qlen"]) + exhaustive(depth, ["push %d", "pop", "speek", "slen"])
     nt = lambda sc: sum(1 for l in sc if l.startswith(("enq", "push"))) >= 3 and sum(1 for l in sc if l in ("deq", "pop")) >= 3
